@@ -6,6 +6,7 @@ import (
 	"strings"
 
 	"github.com/jdillenkofer/pithos/internal/storage/metadatapart/metadatastore"
+	"github.com/jdillenkofer/pithos/internal/storage/metadatapart/partstore"
 )
 
 func verifC06Key(name string, n int) string {
@@ -169,4 +170,141 @@ func VerifC06VersionsPaginate() {
 		verifAssert(gotPrefixes[i] == wantPrefixes[i], "C06: the ListObjectVersions pages report other common prefixes than the keys have")
 	}
 	verifCover("versions-paginated")
+}
+
+// ---- ListMultipartUploads / ListParts: following the markers ----------------------------
+
+type verifC06Upload struct{ key, id string }
+
+func verifC06Part(n int) partstore.PartId {
+	b := make([]byte, 16)
+	b[5] = 7
+	b[15] = byte(n + 1)
+	id, err := partstore.NewPartIdFromBytes(b)
+	verifMust(err)
+	return *id
+}
+
+// VerifC06UploadsPaginate: pending uploads on keys drawn from the menu (a key
+// drawn twice has two uploads), every prefix/delimiter/max-uploads combination;
+// ListMultipartUploads is followed through NextKeyMarker/NextUploadIdMarker until
+// IsTruncated is false. The concatenated pages must be exactly the matching
+// uploads, each once, ordered by key then upload id, with every common prefix
+// reported once.
+func VerifC06UploadsPaginate() {
+	n := verifParam("rows", 3)
+	verifUlidSeq, verifClockSeq = 0, 0
+	tx := verifTx()
+	verifInsertBucket(tx, "bucket", nil)
+	sms := verifStore()
+	bucket := metadatastore.MustNewBucketName("bucket")
+	ups := make([]verifC06Upload, n)
+	for i := 0; i < n; i++ {
+		k := verifC06Menu[verifPick("key", 0, len(verifC06Menu)-1)]
+		res, err := sms.CreateMultipartUpload(verifCtx, tx, bucket, metadatastore.MustNewObjectKey(k), nil, nil, nil)
+		verifAssert(err == nil, "C06: CreateMultipartUpload failed")
+		ups[i] = verifC06Upload{k, res.UploadId.String()}
+	}
+	prefix := []string{"", "a", "a/", "b"}[verifPick("prefix", 0, 3)]
+	delimiter := []string{"", "/"}[verifPick("delimiter", 0, 1)]
+	maxUploads := verifPick("maxUploads", 1, 2)
+
+	sorted := append([]verifC06Upload(nil), ups...)
+	for i := 1; i < len(sorted); i++ {
+		for j := i; j > 0 && (sorted[j].key < sorted[j-1].key || (sorted[j].key == sorted[j-1].key && sorted[j].id < sorted[j-1].id)); j-- {
+			sorted[j], sorted[j-1] = sorted[j-1], sorted[j]
+		}
+	}
+	var wantUploads []verifC06Upload
+	var wantPrefixes []string
+	for _, r := range sorted {
+		if !strings.HasPrefix(r.key, prefix) {
+			continue
+		}
+		rest := r.key[len(prefix):]
+		if i := strings.Index(rest, delimiter); delimiter != "" && i >= 0 {
+			cp := prefix + rest[:i+len(delimiter)]
+			if len(wantPrefixes) == 0 || wantPrefixes[len(wantPrefixes)-1] != cp {
+				wantPrefixes = append(wantPrefixes, cp)
+			}
+			continue
+		}
+		wantUploads = append(wantUploads, r)
+	}
+
+	var gotUploads []verifC06Upload
+	var gotPrefixes []string
+	keyMarker, idMarker := "", ""
+	done := false
+	for page := 0; page < n+2 && !done; page++ {
+		opts := metadatastore.ListMultipartUploadsOptions{Prefix: &prefix, Delimiter: &delimiter, KeyMarker: &keyMarker, UploadIdMarker: &idMarker, MaxUploads: int32(maxUploads)}
+		res, err := sms.ListMultipartUploads(verifCtx, tx, bucket, opts)
+		verifAssert(err == nil, "C06: ListMultipartUploads failed")
+		verifAssert(len(res.Uploads) <= maxUploads, "C06: a ListMultipartUploads page holds more than max-uploads uploads")
+		for _, u := range res.Uploads {
+			gotUploads = append(gotUploads, verifC06Upload{u.Key.String(), u.UploadId.String()})
+		}
+		gotPrefixes = append(gotPrefixes, res.CommonPrefixes...)
+		if !res.IsTruncated {
+			done = true
+			break
+		}
+		keyMarker, idMarker = res.NextKeyMarker, res.NextUploadIdMarker
+	}
+	verifAssert(done, "C06: following the ListMultipartUploads markers does not terminate")
+	verifAssert(len(gotUploads) == len(wantUploads), "C06: the ListMultipartUploads pages miss, repeat or invent an upload")
+	for i := range gotUploads {
+		verifAssert(gotUploads[i] == wantUploads[i], "C06: the ListMultipartUploads pages are not the matching uploads in key / upload-id order")
+	}
+	verifAssert(len(gotPrefixes) == len(wantPrefixes), "C06: the ListMultipartUploads pages miss, repeat or invent a common prefix")
+	for i := range gotPrefixes {
+		verifAssert(gotPrefixes[i] == wantPrefixes[i], "C06: the ListMultipartUploads pages report other common prefixes than the keys have")
+	}
+	verifCover("uploads-paginated")
+}
+
+// VerifC06PartsPaginate: a pending upload with parts at symbolic-chosen part
+// numbers (gaps allowed); ListParts is followed through NextPartNumberMarker.
+func VerifC06PartsPaginate() {
+	verifUlidSeq, verifClockSeq = 0, 0
+	tx := verifTx()
+	verifInsertBucket(tx, "bucket", nil)
+	sms := verifStore()
+	bucket := metadatastore.MustNewBucketName("bucket")
+	key := metadatastore.MustNewObjectKey("k")
+	up, err := sms.CreateMultipartUpload(verifCtx, tx, bucket, key, nil, nil, nil)
+	verifAssert(err == nil, "C06: CreateMultipartUpload failed")
+	var want []int32
+	for pn := int32(1); pn <= 4; pn++ {
+		if !verifBool("has-part") {
+			continue
+		}
+		_, err := sms.UploadPart(verifCtx, tx, bucket, key, up.UploadId, pn, metadatastore.Part{Id: verifC06Part(int(pn)), ETag: "aa", Size: 1})
+		verifAssert(err == nil, "C06: UploadPart failed")
+		want = append(want, pn)
+	}
+	maxParts := verifPick("maxParts", 1, 3)
+	var got []int32
+	var marker *string
+	done := false
+	for page := 0; page < 6 && !done; page++ {
+		res, err := sms.ListParts(verifCtx, tx, bucket, key, up.UploadId, metadatastore.ListPartsOptions{PartNumberMarker: marker, MaxParts: int32(maxParts)})
+		verifAssert(err == nil, "C06: ListParts failed")
+		verifAssert(len(res.Parts) <= maxParts, "C06: a ListParts page holds more than max-parts parts")
+		for _, p := range res.Parts {
+			got = append(got, p.PartNumber)
+		}
+		if !res.IsTruncated {
+			done = true
+			break
+		}
+		verifAssert(res.NextPartNumberMarker != nil, "C06: truncated ListParts page without a next marker")
+		marker = res.NextPartNumberMarker
+	}
+	verifAssert(done, "C06: following the ListParts markers does not terminate")
+	verifAssert(len(got) == len(want), "C06: the ListParts pages miss, repeat or invent a part")
+	for i := range got {
+		verifAssert(got[i] == want[i], "C06: the ListParts pages are not the uploaded parts in part-number order")
+	}
+	verifCover("parts-paginated")
 }
